@@ -27,7 +27,11 @@ POSITIONS = {"first": "0", "middle": "g", "last": "z"}
 PROTOS = ["gopher", "gopherp_dir", "http", "wap", "gemini", "spartan", "sgopher"]
 DIRLIST = ("[url.HTMLURLHandler, gophermap.BuckGophermapHandler, mbox.MaildirFolderHandler, mbox.MaildirMessageHandler, "
            "dir.DirHandler, html.HTMLFileTitleHandler, mbox.MBoxMessageHandler, mbox.MBoxFolderHandler, file.FileHandler]")
-HANDLERS = {"umn": "default", "dir": DIRLIST}
+HANDLERS = {"umn": "default", "dir": DIRLIST, "full": "full"}
+# faults that only bite with the full handler list (PYG modules, ZIP archives)
+FULL_KINDS = ["dotdot-pyg", "socket-zip", "fifo-zip", "dangling-zip", "broken-pyg"]
+# non-UTF-8 names with the shipped syslog logger in force
+SYSLOG_KINDS = ["dangling-latin1", "fifo-latin1", "dotdot-latin1", "vanished-latin1"]
 
 
 def fault_name(kind, pos):
@@ -36,6 +40,14 @@ def fault_name(kind, pos):
     stem = POSITIONS[pos] + "-" + kind
     if kind == "dotdot-name":
         return POSITIONS[pos] + "a..b.txt"
+    if kind == "dotdot-pyg":
+        return POSITIONS[pos] + "a..b.pyg"
+    if kind == "broken-pyg":
+        return POSITIONS[pos] + "broken..x.pyg"
+    if kind.endswith("-zip"):
+        return POSITIONS[pos] + "-" + kind[:-4] + ".zip"
+    if kind.endswith("-latin1"):
+        return POSITIONS[pos] + "caf\udce9-" + kind[:-7] + (".." if kind.startswith("dotdot") else "") + ".txt"
     if kind == "dotdir":
         return POSITIONS[pos] + "dir."
     return stem
@@ -89,6 +101,15 @@ def _plant(root, d, kind, pos):
     name = fault_name(kind, pos)
     p = os.path.join(root, d, name)
     sel = "/" + d + "/" + name
+    p = os.fsencode(p) if "\udce9" in name else p
+    if kind in ("dotdot-pyg", "broken-pyg"):
+        rig.write_file(p, b"raise RuntimeError('this module must never be imported')\n", mode=0o755)
+        return name
+    if kind.endswith("-zip") or kind.endswith("-latin1"):
+        kind = kind.rsplit("-", 1)[0]
+        if kind == "dotdot":
+            rig.write_file(p, b"dots\n")
+            return name
     if kind.startswith("dot-"):
         kind = kind[4:]
         if kind == "eacces":
@@ -106,7 +127,7 @@ def _plant(root, d, kind, pos):
         cwd = os.getcwd()
         os.chdir(os.path.dirname(p))
         try:
-            s.bind(name)
+            s.bind(os.fsencode(name))
         finally:
             os.chdir(cwd)
             s.close()
@@ -141,9 +162,31 @@ def _entries(proto, out):
     return [(e["info"], e["name"], e["target"]) for e in es]
 
 
+_syslog_on = False
+
+
+def _use_syslog(on):
+    """Put the shipped logger (syslog) in force, with syslog() replaced by a stub that is as strict
+    about its argument as the real one (it encodes to UTF-8 and rejects lone surrogates)."""
+    global _syslog_on
+    from pygopherd import logger
+
+    if on:
+        def fake_syslog(priority, message):
+            message.encode("utf-8")
+
+        logger.syslogfunc = fake_syslog
+        logger.priority = 6
+        logger.log = logger.log_syslog
+    else:
+        logger.log = rig.LOG
+    _syslog_on = on
+
+
 def _run_case(hname, faults, zipmode=False, hide=False):
     """faults: tuple of (kind, pos). -> list of (proto, class, detail)"""
     _patch()
+    _use_syslog(any(k.endswith("-latin1") for k, _ in faults))
     _ghosts.clear()
     _eacces.clear()
     _eopen.clear()
@@ -178,7 +221,7 @@ def _run_case(hname, faults, zipmode=False, hide=False):
             if got is None:
                 bad.append((p, "listing-failed", "listing of /t answered %r" % r.out[:120]))
                 continue
-            bnames = {n.encode() for n in names}
+            bnames = {n.encode("utf-8", "surrogateescape") for n in names} | {n.encode("utf-8", "surrogateescape").replace(b"\xe9", b"\\xe9") for n in names}
             kept = [e for e in got if not any(bn in e[1] or (len(e[2]) > 1 and bn in e[2][-1]) for bn in bnames)]
             if kept != base[p]:
                 bad.append((p, "entries-lost", "with faults %r the other entries are %r, without faults %r" % (faults, kept[:6], base[p][:6])))
@@ -192,6 +235,7 @@ def _run_case(hname, faults, zipmode=False, hide=False):
                 if r.internal_error or parsers.classify(fam, r.out)[0] in ("notfound", "invalid"):
                     bad.append((p, "dotdir-listing-failed", "listing of /t/%s answered %r (%s)" % (name, r.out[:100], r.describe_error())))
     finally:
+        _use_syslog(False)
         _ghosts.clear()
         _eacces.clear()
         _eopen.clear()
@@ -276,7 +320,17 @@ def replay(case):
 def run(ck):
     singles = [(k, p) for k in KINDS for p in POSITIONS] + [(k, "middle") for k in DOT_KINDS]
     cases = []
-    for h in HANDLERS:
+    for k in FULL_KINDS:
+        for p in POSITIONS:
+            cases.append(("dir", "full", ((k, p),)))
+            cases.append(("dir", "full", ((k, p), ("dangling", "middle" if p != "middle" else "last"))))
+    for k in SYSLOG_KINDS:
+        for h in ("umn", "dir", "full"):
+            for p in POSITIONS:
+                cases.append(("dir", h, ((k, p),)))
+    for k in KINDS:
+        cases.append(("dir", "full", ((k, "middle"),)))
+    for h in ("umn", "dir"):
         for s in singles:
             cases.append(("dir", h, (s,)))
             if h == "umn" and not s[0].startswith("dot-"):
